@@ -90,6 +90,7 @@ def _verify_cdf_params(
 
   if (
       len(location_parameters.shape) != 4
+      or location_parameters.shape[2] < 1
       or location_parameters.shape[1] != input_dim
       or location_parameters.shape[3] != units // sparsity_factor
   ):
